@@ -50,6 +50,25 @@ def run_seq(rng, res, kind, ty, nops):
         def mk(k):      # key token of the model driver: ints as numbers, floats as bit patterns, strings as hex
             return str(k) if ty == "i" else (str(f32_bits(k)) if ty == "f" else (k.hex() or "-"))
         mlog = []
+        # hash index: the extracted linear-probe table (Model/HashTable.v, engine geometry) mirrors every operation; the hash of a key
+        # is an input taken from the engine (harness command hthash)
+        hmodel = Proc([os.path.join(BUILD, "ht_driver")]) if kind == "h" else None
+        hcache = {}
+        def hmirror(op, ktok, rid, engine_answer=None):
+            if hmodel is None:
+                return
+            if ktok not in hcache:
+                hcache[ktok] = db.cmd("hthash t 0 " + ktok)[3:]
+            line = ("%s %s" % (op, hcache[ktok])) + ("" if rid is None else " %d %d" % rid)
+            mlog.append(line + "   # key " + ktok)
+            m = hmodel.ask(line, 30)
+            res.extra["model_ops"] = res.extra.get("model_ops", 0) + 1
+            if m is None or m.startswith("err"):
+                res.broken.append("ht_driver failed on %r: %s" % (line, m)); return
+            if op == "ins" and m != "inserted" and len(res.mismatches) < 5:
+                res.mismatches.append(("# hash index; model session (build/ht_driver):\n" + "\n".join(mlog[-300:]), "the hash-table model does not store an entry this workload expects to be storable (%s): generator outside its own contract?" % m))
+            if op == "get" and engine_answer is not None and engine_answer != m and len(res.mismatches) < 5:
+                res.mismatches.append(("# hash index; model session (build/ht_driver):\n" + "\n".join(mlog[-300:]), "engine lookup %s | hash-table model %s" % (engine_answer[:200], m[:200])))
         def mirror(line, engine_answer, ordered=True):
             if model is None:
                 return
@@ -107,11 +126,11 @@ def run_seq(rng, res, kind, ty, nops):
                 if (k, rid) in ref:
                     continue
                 a = db.cmd("ixins t 0 %s %d %d" % (kt, rid[0], rid[1]))
-                ref.add((k, rid)); mirror("ins %s %d %d" % (mk(k), rid[0], rid[1]), None)
+                ref.add((k, rid)); mirror("ins %s %d %d" % (mk(k), rid[0], rid[1]), None); hmirror("ins", kt, rid)
             elif r < 0.65 and ref:
                 (k, rid) = rng.choice(sorted(ref, key=lambda e: (str(e[0]), e[1])))
                 a = db.cmd("ixdel t 0 %s %d %d" % (keytok(ty, k), rid[0], rid[1]))
-                ref.discard((k, rid)); mirror("del %s %d %d" % (mk(k), rid[0], rid[1]), None)
+                ref.discard((k, rid)); mirror("del %s %d %d" % (mk(k), rid[0], rid[1]), None); hmirror("del", keytok(ty, k), rid)
             elif r < 0.75 and ref and kind != "h":
                 (k, rid) = rng.choice(sorted(ref, key=lambda e: (str(e[0]), e[1])))
                 k2 = rnd_key(rng, ty, pool)
@@ -126,6 +145,7 @@ def run_seq(rng, res, kind, ty, nops):
             elif r < 0.92:
                 a = db.cmd("ixscan t 0 " + kt)
                 mirror("scan %s" % mk(k), a)
+                hmirror("get", kt, None, a)
                 got = sorted(tuple(int(x) for x in e.split(".")) for e in a[3:].split(";")) if a.startswith("ok:") and a[3:] else []
                 if not a.startswith("ok") or got != rids_of(k):
                     fails.append(("lookup %s" % kt, "lookup of key %s returned %s, stored under it: %s" % (kt, got[:6], rids_of(k)[:6])))
@@ -159,6 +179,8 @@ def run_seq(rng, res, kind, ty, nops):
     finally:
         if model is not None:
             model.close()
+        if hmodel is not None:
+            hmodel.close()
         if fails:
             fails = [("# session:\n" + "\n".join(db.log[-300:]) + "\n# at: " + d, w) for d, w in fails]
         db.destroy()
@@ -179,6 +201,60 @@ def run_conc(kind, writers, readers, ops, seed):
         shutil.rmtree(d, ignore_errors=True)
 
 
+def hash_probes(res):
+    """listed findings of the hash index (catalog API only), each reproduced on the engine AND predicted by the extracted
+    hash-table model (theorems ..._refuted in Props/C17Hash.v)"""
+    db = DB(mem_kb=4000)
+    hm = Proc([os.path.join(BUILD, "ht_driver")])
+    try:
+        if not db.open().startswith("ok"):
+            return
+        db.cmd("mktable t a:i:h,b:i:n")
+        def hh(k):
+            return db.cmd("hthash t 0 i:%d" % k)[3:]
+        # two keys with the same home slot
+        homes, pair = {}, None
+        for k in range(1, 6000):
+            hk = int(hm.ask("home " + hh(k), 10))
+            if hk in homes:
+                pair = (homes[hk], k); break
+            homes[hk] = k
+        if pair:
+            x, k = pair
+            # (a) a present pair is accepted again past a tombstone and then returned twice
+            for op, kk, rid in (("ixins", x, (1, 1)), ("ixins", k, (1, 2)), ("ixdel", x, (1, 1)), ("ixins", k, (1, 2))):
+                db.cmd("%s t 0 i:%d %d %d" % (op, kk, rid[0], rid[1])); hm.ask("%s %s %d %d" % ("ins" if op == "ixins" else "del", hh(kk), rid[0], rid[1]), 10)
+            a, m = db.cmd("ixscan t 0 i:%d" % k), hm.ask("get " + hh(k), 10)
+            if a == m and a == "ok:1.2;1.2":
+                res.known_hits["F-HASH-DUP"] = "hash index: an entry that is present is accepted a second time when a deleted entry's slot lies before it on the probe path, and a lookup then returns its row id twice (keys %d, %d share a home slot): %s" % (x, k, a)
+            elif a != m:
+                res.mismatches.append(("# hash probe (a) keys %d %d" % (x, k), "engine %s | hash-table model %s" % (a, m)))
+            # (b) the refusal test compares the value only: the same row id under a second key on the same probe path is dropped silently
+            db.cmd("ixdel t 0 i:%d 1 2" % k); hm.ask("del %s 1 2" % hh(k), 10)
+            db.cmd("ixins t 0 i:%d 7 7" % x); hm.ask("ins %s 7 7" % hh(x), 10)
+            db.cmd("ixins t 0 i:%d 7 7" % k); mo = hm.ask("ins %s 7 7" % hh(k), 10)
+            a, m = db.cmd("ixscan t 0 i:%d" % k), hm.ask("get " + hh(k), 10)
+            if a == m and a == "ok:" and mo == "duplicate":
+                res.known_hits["F-HASH-VALUE"] = "hash index: InsertEntry of (key %d, row id 7.7) is dropped without an error because (key %d, row id 7.7) lies on its probe path (the duplicate test compares the value only); the lookup of key %d returns nothing" % (k, x, k)
+            elif a != m:
+                res.mismatches.append(("# hash probe (b) keys %d %d" % (x, k), "engine %s | hash-table model %s" % (a, m)))
+        # (c) the table never grows: the entry after the last free slot is dropped and reported as success
+        db.cmd("mktable u a:i:h,b:i:n"); hm.ask("reset", 10)
+        n, last = 2520, None
+        for i in range(n + 1):
+            db.cmd("ixins u 0 i:%d 3 %d" % (100000 + i, i % 60000))
+            last = hm.ask("ins %s 3 %d" % (db.cmd("hthash u 0 i:%d" % (100000 + i))[3:], i % 60000), 10)
+        a, m = db.cmd("ixscan u 0 i:%d" % (100000 + n)), hm.ask("get " + db.cmd("hthash u 0 i:%d" % (100000 + n))[3:], 10)
+        first = db.cmd("ixscan u 0 i:100000")
+        if a == m and a == "ok:" and last == "full" and first == "ok:3.0":
+            res.known_hits["F-HASH-FULL"] = "hash index: the table has 2520 slots and never grows; the 2521st entry is dropped and InsertEntry reports nothing (lookup returns no row id)"
+        elif a != m:
+            res.mismatches.append(("# hash probe (c) full table", "engine %s | hash-table model %s (last insert: %s)" % (a, m, last)))
+        res.evaluations += 3
+    finally:
+        db.destroy(); hm.close()
+
+
 def run(res, replay=None):
     res.rule = ("per index kind (skip list, unique skip list, B-tree, hash) and key type (int, float, string): sequences of 1,500 (thorough 12,000) insert / delete / update-entry / lookup / bounded-scan operations "
                 "through the index.Index interface with duplicate keys, adjacent values, extremes and long strings (enough to split and empty nodes), every lookup and scan compared with a reference multimap; "
@@ -193,6 +269,7 @@ def run(res, replay=None):
         return
     rng = random.Random(res.seed)
     nops = 1500 if res.tier == "quick" else 12000
+    hash_probes(res)
     combos = [(k, t) for k in "subh" for t in "ifs"]
     for (k, t) in combos:
         if k == "b" and t == "s":
